@@ -154,13 +154,13 @@ func c01SockTable() (map[string]c01SockRow, error) {
 func c01WaitAllRead(clients []*e2eClient, agentAddr string, timeout time.Duration) (bool, string) {
 	ag, ok := c01ProcAddr(agentAddr)
 	if !ok {
-		return false, "agent address " + agentAddr + " is not IPv4"
+		return false, "harness: agent address " + agentAddr + " is not IPv4"
 	}
 	var locals []string
 	for _, cl := range clients {
 		l, ok := c01ProcAddr(cl.c.LocalAddr().String())
 		if !ok {
-			return false, "client address " + cl.c.LocalAddr().String() + " is not IPv4"
+			return false, "harness: client address " + cl.c.LocalAddr().String() + " is not IPv4"
 		}
 		locals = append(locals, l)
 	}
@@ -169,7 +169,7 @@ func c01WaitAllRead(clients []*e2eClient, agentAddr string, timeout time.Duratio
 	for {
 		rows, err := c01SockTable()
 		if err != nil {
-			return false, err.Error()
+			return false, "harness: " + err.Error()
 		}
 		sentAll := true
 		for i, l := range locals {
@@ -183,7 +183,7 @@ func c01WaitAllRead(clients []*e2eClient, agentAddr string, timeout time.Duratio
 			// a second look, taken after every byte was seen to have arrived at the agent's sockets
 			rows, err = c01SockTable()
 			if err != nil {
-				return false, err.Error()
+				return false, "harness: " + err.Error()
 			}
 			readAll := true
 			for i, l := range locals {
@@ -394,6 +394,10 @@ func c01StopExecute(sc *c01StopCase) (run *c01Run) {
 	}
 	if len(open) > 0 {
 		if ok, why := c01WaitAllRead(open, ag.Addr(), inputWait); !ok {
+			if strings.HasPrefix(why, "harness:") {
+				run.problem("c01:harness", why)
+				return
+			}
 			run.problem("c01:input-stuck", fmt.Sprintf("stop case seed %d: the agent does not read what its open connections have delivered within %s: %s", sc.Seed, inputWait, why))
 			return
 		}
